@@ -1,4 +1,4 @@
-(* C20 - history level: in a quiescent history a parameter message is only
+(* C20 - history level: in a nocross history a parameter message is only
    ever produced by a controller value whose controller has been assigned
    (a midi-use-CC for it reached the non-realtime side while an address was
    queued) *)
@@ -142,15 +142,15 @@ Proof.
   split; [exact Sil | apply IH; assumption].
 Qed.
 
-(* quiescent history: every parameter message comes from a controller value
+(* nocross history: every parameter message comes from a controller value
    whose controller was assigned before; no other event produces one *)
-Theorem quiescent_silent : forall ports evs tr fin U,
+Theorem nocross_silent : forall ports evs tr fin U,
   (length U <= 32)%nat -> incl (ccids evs) U -> Forall (fun x => 0 <= x) (ccids evs) ->
-  run ports world0 evs = (tr, fin) -> quiescent evs tr = true ->
+  run ports world0 evs = (tr, fin) -> nocross evs tr = true ->
   silent_run ports world0 [] evs.
 Proof.
   intros ports evs tr fin U US Hi Hp Hr Hq.
   apply silent_from.
-  - eapply quiescent_fresh; eassumption.
+  - eapply nocross_fresh; eassumption.
   - constructor; cbn; try (intros x []); constructor.
 Qed.
